@@ -234,7 +234,18 @@ class Eval:
 
     def assign(self, target, v, st, aug=False):
         if isinstance(target, ast.Name):
-            self.emit("assign", st, name=target.id, value=v, old=self.env.get(target.id), aug=aug)
+            # `x = a if c else b` is `if c: x = a  else: x = b`: one guarded assignment event per arm (the bound value stays the choice)
+            def assign_split(val):
+                if val[0] == "phi" and not aug:
+                    for cond, branch in ((val[1], val[2]), (T.b_not(val[1]), val[3])):
+                        self.guard.append(cond)
+                        try:
+                            assign_split(branch)
+                        finally:
+                            self.guard.pop()
+                else:
+                    self.emit("assign", st, name=target.id, value=val, old=self.env.get(target.id), aug=aug)
+            assign_split(v)
             if target.id in self.abstract:
                 self.summary.defs.setdefault(target.id, []).append(v)
                 v = T.sym("$" + target.id)
@@ -1335,6 +1346,10 @@ def simplify_call(fname, recv, args, kw):
     if fname in RED and len(args) == 1 and not kw:
         fname = RED[fname]
     # ---- elementwise ufuncs spelled as functions
+    if fname in ("numpy.subtract", "numpy.add", "numpy.multiply", "numpy.divide", "numpy.true_divide", "numpy.negative", "numpy.square",
+                 "numpy.power", "numpy.hypot", "numpy.sqrt", "numpy.abs", "numpy.absolute"):
+        # a numpy ufunc converts list arguments to arrays itself: np.subtract([a, b], [c, d]) is element-wise
+        args = tuple(T.arr(a[1]) if a[0] == "seq" and not any(x[0] == "star" for x in a[1]) else a for a in args)
     if fname in ("numpy.hypot", "math.hypot") and len(args) == 2:
         return T.sqrt(T.add(T.mul(args[0], args[0]), T.mul(args[1], args[1])))
     if fname == "numpy.square" and len(args) == 1:
